@@ -9,7 +9,7 @@ CONSTANTS
   MaxSvcs = 3
   MaxKeys = 4
   MaxLs = 3
-  MaxLegacy = 4
+  MaxLegacy = 5
   GoodKeys = {1, 2, 3, 4, 6, 7}
   SvcListeners <- SvcLs6
 INVARIANTS DumpInv
